@@ -90,6 +90,16 @@ func (q *UdpTaskQueue) popOverflowTask() (UdpTask, bool) {
 	q.enqueueMu.Lock()
 	defer q.enqueueMu.Unlock()
 
+	// Tasks in the channel are always older than tasks in the overflow FIFO.
+	// The lock-free poll in popReadyTask may have seen an empty channel before
+	// a burst filled it and spilled into overflow; re-poll under enqueueMu
+	// (no enqueue can run now) so an overflow task never overtakes them.
+	select {
+	case task := <-q.ch:
+		return task, true
+	default:
+	}
+
 	if len(q.overflow) == 0 {
 		q.overflowMode = false
 		return nil, false
